@@ -218,7 +218,8 @@ P["C09"] = dict(
     claimed=True,
     technique="static analysis: key-availability dataflow between constructors and parameter-table readers, "
               "validation-before-unwrap, ranking functions for all loops, recursion guard, ellipsoid table grammar",
-    decides=["R-REMOVE-PAIR: tidy_proj removes the a= and rf= elements in an order decided by comparing the two saved "
+    decides=["R-INSERT-BOUND: in the tokenizer / PROJ translator every Vec::insert / Vec::remove at a constant position is backed by a lower bound on the length of that vector (its history, or a dominating non-emptiness test of the same value), or the position is clamped",
+             "R-REMOVE-PAIR: tidy_proj removes the a= and rf= elements in an order decided by comparing the two saved "
              "indices (an unordered pair of Vec::remove calls panics when rf is written before a trailing a)",
              "R-KEY-AVAIL: every panicking keyed read of the parameter tables (unwrap of an accessor, map[key], "
              "series_as_*) is backed by the gamut, the implicit keys, an insert on every Ok path, or a conditional "
@@ -428,7 +429,9 @@ P["C17"] = dict(
         "omissions)",
         "R-PROJ-GLOBALS: pipeline globals are inserted right after the operator name, before the step's own arguments "
         "(a step-local value of the same key comes later and wins)",
-        "R-PROJ-REFUSALS: init= clauses and a proj=pipeline element in a later step end in an Unsupported error",
+        "R-PROJ-REFUSALS: init= clauses and a proj=pipeline element in a later step end in an Unsupported error; every "
+        "element of a step is tested for init= (the test is not cut short by the search for proj=)",
+        "R-INSERT-BOUND: no insertion / removal at a constant position into a vector of unknown length",
         "R-PROJ-FILTER (unconditional): every alternative value of the definition handed to Op::new is the translator's "
         "result - no fast path that skips parse_proj",
         "R-PROJ-GLOBALS (tidy-first): tidy_proj rewrites the step's own a / rf / k before the globals are inserted",
